@@ -3,6 +3,7 @@ use crate::engine::{CaseCtx, CaseResult, Run};
 use crate::tape::Tape;
 
 pub mod c01;
+pub mod c15;
 pub mod c19;
 pub mod c20;
 
@@ -18,6 +19,7 @@ pub struct Prop {
 pub fn all() -> Vec<Prop> {
     vec![
         Prop { id: "C01", level: "exploration", case: c01::case, run: c01::run, replay_reps: 1 },
+        Prop { id: "C15", level: "exploration", case: c15::case, run: c15::run, replay_reps: 1 },
         Prop { id: "C19", level: "exploration", case: c19::case, run: c19::run, replay_reps: 1 },
         Prop { id: "C20", level: "exploration", case: c20::case, run: c20::run, replay_reps: 1 },
     ]
